@@ -83,6 +83,9 @@ type Obligation struct {
 	ClauseAt string
 	CallLog  []callRec
 	Params   []string
+	Structural bool   // decided by the engine itself (call-graph sweep), no solver involved
+	StructOK   bool
+	StructMsg  string
 	Observe  [][2]string // name, term
 	ObservePrefix int
 }
